@@ -2,6 +2,7 @@ package props
 
 import (
 	"bytes"
+	"context"
 	"encoding/binary"
 	"fmt"
 	"math/rand"
@@ -36,6 +37,8 @@ type COp struct {
 	Out    harness.Outcome `json:"out"`
 	// reads
 	Kvs []harness.MKV `json:"kvs,omitempty"`
+	// the request context was already cancelled when the request was made
+	DeadCtx bool `json:"dead_ctx,omitempty"`
 }
 
 func (o *COp) String() string {
@@ -57,6 +60,7 @@ type StoreWrite struct {
 }
 
 type concCfg struct {
+	deadCtxPct   int // share of the write requests issued with a context that is already cancelled (the client gave up)
 	kind         string
 	clients      int
 	keys         int
@@ -88,6 +92,7 @@ type concRun struct {
 	floor       uint64 // compaction revision used in set-up (0 if none)
 	faultOn     int32
 	compactions int64
+	stalled     bool // run() gave up: no request returned any more (violation recorded); nothing else can be judged
 }
 
 func (cr *concRun) tick() int64 { return atomic.AddInt64(&cr.stamp, 1) }
@@ -97,13 +102,28 @@ var coderC = coder.NewNormalCoder()
 // setup builds engine + wrapper + node and brings every key into its initial state.
 func newConcRun(c *harness.Case, cfg concCfg) *concRun {
 	r := c.Rng
-	eng, err := harness.NewEngine(cfg.kind)
-	if err != nil {
-		c.Inconclusive("engine: " + err.Error())
-		return nil
+	var eng *harness.Engine
+	var ekv storage.KvStorage
+	if strings.Contains(cfg.kind, "/") {
+		// an engine reporting several partitions (borders among the versions the workload is about to write)
+		var keys []string
+		for i := 0; i < cfg.keys; i++ {
+			keys = append(keys, fmt.Sprintf("%s/k%d", harness.Prefix, i))
+		}
+		var ok bool
+		if ekv, eng, _, ok = partitionedStore(c, newRand(r.Int63()), strings.Split(cfg.kind, "/")[0], keys, 1000, cfg.clients*cfg.opsPer/2+4); !ok {
+			return nil
+		}
+	} else {
+		var err error
+		if eng, err = harness.NewEngine(cfg.kind); err != nil {
+			c.Inconclusive("engine: " + err.Error())
+			return nil
+		}
+		ekv = eng.KV
 	}
 	cr := &concRun{cfg: cfg, eng: eng, init: harness.NewModel()}
-	w := harness.NewWrap(eng.KV)
+	w := harness.NewWrap(ekv)
 	cr.w = w
 	delaySeed := r.Int63()
 	faultOn := &cr.faultOn
@@ -211,15 +231,26 @@ func (cr *concRun) seqInit(c *harness.Case, op harness.SeqOp) {
 }
 
 func (cr *concRun) close() {
+	if cr.stalled {
+		return // goroutines are still parked inside the node and the engine
+	}
 	cr.n.Retire()
 	cr.eng.Close()
 }
+
+// deadCtx is the context of a client that has already given up.
+var deadCtx = func() context.Context {
+	ctx, cancel := context.WithCancel(context.Background())
+	cancel()
+	return ctx
+}()
 
 // run executes the concurrent phase and returns when every client call has returned.
 func (cr *concRun) run(c *harness.Case) {
 	cfg := cr.cfg
 	var wg sync.WaitGroup
 	var stop int32
+	st := harness.NewStall()
 	perClient := make([][]*COp, cfg.clients+cfg.readers)
 	startGate := make(chan struct{})
 	for ci := 0; ci < cfg.clients; ci++ {
@@ -235,6 +266,7 @@ func (cr *concRun) run(c *harness.Case) {
 				}
 			}
 			<-startGate
+			defer st.Enter()()
 			for i := 0; i < cfg.opsPer; i++ {
 				key := cr.keys[r.Intn(len(cr.keys))]
 				op := &COp{Client: ci, Key: key, Val: fmt.Sprintf("c%d#%d", ci, i)}
@@ -277,7 +309,12 @@ func (cr *concRun) run(c *harness.Case) {
 						}
 					}
 				default:
-					op.Out = cr.n.Do(harness.SeqOp{Kind: op.Kind, Key: key, Val: []byte(op.Val), Exp: op.Exp})
+					ctx := harness.Ctx
+					if cfg.deadCtxPct > 0 && r.Intn(100) < cfg.deadCtxPct {
+						ctx = deadCtx
+						op.DeadCtx = true
+					}
+					op.Out = cr.n.DoCtx(ctx, harness.SeqOp{Kind: op.Kind, Key: key, Val: []byte(op.Val), Exp: op.Exp})
 					if op.Out.Err == "" {
 						if op.Out.Succeeded && op.Kind != "delete" {
 							last[key] = op.Out.Rev
@@ -289,6 +326,7 @@ func (cr *concRun) run(c *harness.Case) {
 					}
 				}
 				op.Ret = cr.tick()
+				st.Tick()
 				perClient[ci] = append(perClient[ci], op)
 			}
 		}(ci)
@@ -342,7 +380,17 @@ func (cr *concRun) run(c *harness.Case) {
 		}()
 	}
 	close(startGate)
-	wg.Wait()
+	done := make(chan struct{})
+	go func() { wg.Wait(); close(done) }()
+	if stalled, dump := st.Watch(done); stalled {
+		// no request returns any more and no client is waiting for a CPU: the node is wedged. The blocked goroutines
+		// (and the engine under them) are abandoned.
+		atomic.StoreInt32(&stop, 1)
+		cr.stalled = true
+		w := map[string]interface{}{"engine": cfg.kind, "blocked_goroutines": harness.TrimDump(dump, 12, "kubebrain/pkg/")}
+		c.Violatef(c.Prop+" every-client-blocked no-request-returns", w, "for %d looks %v apart no client request returned, while every client goroutine was parked at the same synchronisation point (none running, runnable or in a system call): requests after a certain one never complete", 5, 3*time.Second)
+		return
+	}
 	atomic.StoreInt32(&stop, 1)
 	rwg.Wait()
 	for _, l := range perClient {
@@ -429,6 +477,9 @@ func (cr *concRun) finalModel() *harness.Model {
 // ---------------------------------------------------------------- C01 oracle
 
 func (cr *concRun) checkC01(c *harness.Case) {
+	if cr.stalled {
+		return
+	}
 	succ := cr.successes()
 	condFailed := 0
 	overlap := false
@@ -687,6 +738,9 @@ func ownRev(op *COp) (uint64, bool) {
 }
 
 func (cr *concRun) checkC02(c *harness.Case) {
+	if cr.stalled {
+		return
+	}
 	// (a) uniqueness over response-determined revisions and storage-observed revisions
 	seen := map[uint64]string{}
 	type ro struct {
@@ -792,6 +846,9 @@ func (cr *concRun) checkC02(c *harness.Case) {
 // ---------------------------------------------------------------- C04 oracle
 
 func (cr *concRun) checkC04(c *harness.Case) {
+	if cr.stalled {
+		return
+	}
 	// monitor 1: reads never overtake a write whose storage transaction has not finished
 	for _, sw := range cr.store {
 		if sw.CommittedAfter >= sw.Rev && sw.Rev > cr.n.Start {
@@ -923,6 +980,9 @@ type regOut struct {
 // an independent formulation of the chain rule and of "a condition fails only if the key differed at some
 // moment while the request was in flight" (= a linearization point exists).
 func (cr *concRun) checkC01Linearizable(c *harness.Case) {
+	if cr.stalled {
+		return
+	}
 	if strings.HasPrefix(cr.cfg.kind, "tikv") {
 		// On the TiKV mock a few heavily contended histories contain a guarded write answered "condition failed"
 		// (a write conflict, which the adapter maps to a failed compare) while reads just before and after still show
